@@ -9,6 +9,10 @@ Lemma sites_now :
   names_checked_for_period = true /\ import_cycle_detected = true /\ dummy_segment_restored = true.
 Proof. repeat split; reflexivity. Qed.
 
+Lemma pc_sites_now :
+  pc_values_checked = true /\ pc_limit = 65536 /\ relocated_pc_checked = true /\ pc_add_checked = true /\ branch_sub_checked = true.
+Proof. repeat split; reflexivity. Qed.
+
 Lemma evaluator_now : neg_checked = true /\ literal_overflow_is_error = true.
 Proof. split; reflexivity. Qed.
 
@@ -233,16 +237,13 @@ Proof.
   destruct (has_period s) eqn:P; [split; auto|]. unfold identifier_new. rewrite P, andb_false_r. split; discriminate.
 Qed.
 
-(* ------------------------------------------------------------------ program counter arithmetic (unchecked) *)
+(* ------------------------------------------------------------------ program counter arithmetic *)
 Lemma segment_emit_panics_iff pc len : segment_emit pc len = SPanic <-> two64 <= pc + len.
 Proof.
   unfold segment_emit. change emit_end_checked with false. cbn [negb andb].
   destruct (two64 <=? pc + len) eqn:E; [split; [lia|reflexivity]|].
   destruct ((65535 <? pc) || (65536 <? pc + len)); split; try discriminate; lia.
 Qed.
-
-Lemma pc_add_panics_iff pc n : pc_add pc n = SPanic <-> two64 <= pc + n.
-Proof. unfold pc_add. change pc_add_checked with false. destruct (two64 <=? pc + n) eqn:E; split; try discriminate; try lia; reflexivity. Qed.
 
 Lemma target_pc_panics_iff pc initial target :
   target_pc pc initial target = SPanic <->
@@ -256,40 +257,79 @@ Proof.
   - split; auto.
 Qed.
 
-Lemma small_usize_as_i64 z : 0 <= z < 4611686018427387904 -> usize_as_i64 z = z.
-Proof. intros H. unfold usize_as_i64, wrap64, two64. rewrite Z.mod_small by lia. lia. Qed.
-
 Lemma source_map_add_panics_iff tpc len : source_map_add tpc len = SPanic <-> two64 <= tpc + len.
 Proof. unfold source_map_add. destruct (two64 <=? tpc + len) eqn:E; split; try discriminate; try lia; reflexivity. Qed.
 
-(* outside the known class (every pc below 2^62, relocated pc not negative, at most 2^32 bytes at a time) nothing panics *)
-Lemma pc_arithmetic_guarded pc initial target len :
-  Known_pc_out_of_range pc initial target = false -> 0 <= len <= 4294967296 ->
-  segment_emit pc len <> SPanic /\ pc_add pc len <> SPanic /\
-  exists t, target_pc pc initial target = SOk t /\ source_map_add t len <> SPanic.
+Lemma small_usize_as_i64 z : 0 <= z < 4611686018427387904 -> usize_as_i64 z = z.
+Proof. intros H. unfold usize_as_i64, wrap64, two64. rewrite Z.mod_small by lia. lia. Qed.
+
+(* what the range checks accept *)
+Lemma address_check_spec v :
+  (0 <= v <= 65536 -> address_check v = SOk v) /\ (~ 0 <= v <= 65536 -> address_check v = SDiag diag_pc_out_of_range).
 Proof.
-  unfold Known_pc_out_of_range, pc_insane. intros K L.
-  apply orb_false_iff in K as [K R]. apply orb_false_iff in K as [K D]. apply orb_false_iff in K as [A B].
-  apply negb_false_iff in A, B, D. apply andb_prop in A as [A1 A2], B as [B1 B2], D as [D1 D2].
-  assert (Hp : 0 <= pc < 4611686018427387904) by lia.
-  assert (Hi : 0 <= initial < 4611686018427387904) by lia.
-  assert (Ht : 0 <= target < 4611686018427387904) by lia.
-  repeat split.
-  - intros H. apply segment_emit_panics_iff in H. unfold two64 in H. lia.
-  - intros H. apply pc_add_panics_iff in H. unfold two64 in H. lia.
-  - unfold target_pc. change target_pc_checked with false. cbv iota. rewrite !small_usize_as_i64 by assumption.
+  destruct pc_sites_now as (C & L & _). unfold address_check. rewrite C, L. cbn [andb]. split; intros H.
+  - assert (E : (0 <=? v) && (v <=? 65536) = true) by lia. rewrite E. cbn [negb].
+    unfold pc_from_i64, as_usize, two64. rewrite Z.mod_small by lia. reflexivity.
+  - assert (E : (0 <=? v) && (v <=? 65536) = false) by lia. rewrite E. reflexivity.
+Qed.
+
+Lemma address_check_total v : address_check v <> SPanic.
+Proof. unfold address_check. destruct (pc_values_checked && negb ((0 <=? v) && (v <=? pc_limit))); discriminate. Qed.
+
+(* `* = v`: a diagnostic exactly when v is outside 0..$10000 or (with a current segment) the relocated pc is negative;
+   otherwise the pc that is set satisfies the invariant *)
+Lemma set_pc_site_spec v initial target :
+  0 <= initial <= 65536 -> 0 <= target <= 65536 ->
+  (0 <= v <= 65536 /\ 0 <= v + (target - initial) ->
+     set_pc_site v (Some (seg_offset initial target)) = SOk (Some v) /\ pc_ok v initial target) /\
+  (~ (0 <= v <= 65536 /\ 0 <= v + (target - initial)) ->
+     set_pc_site v (Some (seg_offset initial target)) = SDiag diag_pc_out_of_range).
+Proof.
+  intros Hi Ht. destruct pc_sites_now as (C & L & R & _). destruct (address_check_spec v) as [A1 A2].
+  unfold set_pc_site, seg_offset. rewrite !small_usize_as_i64 by lia. rewrite R. cbn [andb]. split.
+  - intros [Hv Hr]. rewrite A1 by lia. assert (E : (v + (target - initial) <? 0) = false) by lia. rewrite E.
+    split; [reflexivity|]. unfold pc_ok. rewrite L. lia.
+  - intros N. destruct (Z_le_gt_dec 0 v) as [P|P]; [destruct (Z_le_gt_dec v 65536) as [Q|Q]|].
+    + rewrite A1 by lia. assert (E : (v + (target - initial) <? 0) = true) by lia. rewrite E. reflexivity.
+    + rewrite A2 by lia. reflexivity.
+    + rewrite A2 by lia. reflexivity.
+Qed.
+
+(* under the invariant nothing in the emission path panics, for any number of bytes an address space can hold, and the
+   invariant is preserved by a successful emit *)
+Lemma pc_arithmetic_total pc initial target len :
+  pc_ok pc initial target -> 0 <= len < 4611686018427387904 ->
+  (exists t, target_pc pc initial target = SOk t /\ 0 <= t <= 131072 /\ source_map_add t len <> SPanic) /\
+  segment_emit pc len <> SPanic /\
+  (forall p, segment_emit pc len = SOk p -> pc_ok p initial target).
+Proof.
+  destruct pc_sites_now as (_ & L & _). unfold pc_ok. rewrite L. intros (Hp & Hi & Ht & Hr) Hl. repeat split.
+  - unfold target_pc. change target_pc_checked with false. cbv iota. rewrite !small_usize_as_i64 by lia.
     assert (I1 : in_i64 (target - initial) = true) by (unfold in_i64, i64_min, i64_max; lia).
     assert (I2 : in_i64 (pc + (target - initial)) = true) by (unfold in_i64, i64_min, i64_max; lia).
     rewrite I1, I2. cbn [negb]. eexists. split; [reflexivity|].
-    intros H. apply source_map_add_panics_iff in H. unfold as_usize, two64 in H.
-    rewrite Z.mod_small in H by lia. lia.
+    unfold as_usize, two64. rewrite Z.mod_small by lia. split; [lia|].
+    intros H. apply source_map_add_panics_iff in H. unfold two64 in H. lia.
+  - intros H. apply segment_emit_panics_iff in H. unfold two64 in H. lia.
+  - unfold segment_emit in H. change emit_end_checked with false in H. cbn [negb andb] in H.
+    destruct (two64 <=? pc + len); [discriminate|]. destruct ((65535 <? pc) || (65536 <? pc + len)) eqn:E; [discriminate|].
+    injection H as <-. lia.
+  - unfold segment_emit in H. change emit_end_checked with false in H. cbn [negb andb] in H.
+    destruct (two64 <=? pc + len); [discriminate|]. destruct ((65535 <? pc) || (65536 <? pc + len)) eqn:E; [discriminate|].
+    injection H as <-. lia.
+  - lia.
+  - lia.
+  - lia.
+  - lia.
+  - unfold segment_emit in H. change emit_end_checked with false in H. cbn [negb andb] in H.
+    destruct (two64 <=? pc + len); [discriminate|]. destruct ((65535 <? pc) || (65536 <? pc + len)) eqn:E; [discriminate|].
+    injection H as <-. lia.
 Qed.
 
-Lemma pc_arithmetic_refuted :
-  segment_emit (pc_from_i64 (-1)) 1 = SPanic /\ Known_pc_out_of_range (pc_from_i64 (-1)) 49152 49152 = true /\
-  target_pc (pc_from_i64 i64_max) 0 1 = SPanic /\
-  (* a relocated segment (start $2000, pc 0) whose pc is moved below its start: the target pc wraps around *)
-  (exists t, target_pc 4096 8192 0 = SOk t /\ source_map_add t 8192 = SPanic) /\ Known_pc_out_of_range 4096 8192 0 = true.
+(* the arithmetic without the range checks (the source before the fix): exact panic conditions, and the three witnesses *)
+Lemma unchecked_pc_witnesses :
+  segment_emit (pc_from_i64 (-1)) 1 = SPanic /\ target_pc (pc_from_i64 i64_max) 0 1 = SPanic /\
+  (exists t, target_pc 4096 8192 0 = SOk t /\ source_map_add t 8192 = SPanic).
 Proof. repeat split; try (vm_compute; reflexivity). eexists. split; vm_compute; reflexivity. Qed.
 
 (* ------------------------------------------------------------------ whole statements *)
@@ -325,19 +365,41 @@ Proof.
   - destruct (segment_emit pc 0) eqn:S; try discriminate. apply segment_emit_panics_iff in S. unfold two64 in S. lia.
 Qed.
 
-Lemma stmt_pc_guarded en initial target e v :
-  eval en e = EVal (Some (SNum v)) -> Known_pc_out_of_range (pc_from_i64 v) initial target = false ->
-  stmt_pc_then_byte en initial target e <> RPanic.
+Lemma emit_one_total pc initial target : pc_ok pc initial target -> emit_one pc initial target <> RPanic.
 Proof.
-  intros Ev K. unfold stmt_pc_then_byte, eval_i64. rewrite Ev.
-  destruct (pc_arithmetic_guarded (pc_from_i64 v) initial target 1 K ltac:(lia)) as (A & _ & t & -> & B).
-  destruct (source_map_add t 1); try discriminate; [|congruence].
-  destruct (segment_emit (pc_from_i64 v) 1); try discriminate. congruence.
+  intros K. destruct (pc_arithmetic_total pc initial target 1 K ltac:(lia)) as ((t & T & _ & S) & E & _).
+  unfold emit_one. rewrite T. destruct (source_map_add t 1); try discriminate; [|congruence].
+  destruct (segment_emit pc 1); try discriminate. congruence.
 Qed.
 
-Lemma stmt_pc_refuted :
-  stmt_pc_then_byte (mkEnv (fun _ => None) None) 49152 49152 (ENum 10 [49%N] false true) = RPanic.
-Proof. vm_compute. reflexivity. Qed.
+(* `* = <any expression>` followed by a byte, in any segment whose options were accepted: never a panic *)
+Lemma stmt_pc_total en initial target e :
+  0 <= initial <= 65536 -> 0 <= target <= 65536 -> stmt_pc_then_byte en initial target e <> RPanic.
+Proof.
+  intros Hi Ht. unfold stmt_pc_then_byte. pose proof (eval_i64_total en e) as H.
+  destruct (eval_i64 en e) as [[v|]|d|]; try discriminate; [|congruence].
+  destruct (set_pc_site_spec v initial target Hi Ht) as [Ok Bad].
+  destruct (Z_le_gt_dec 0 v) as [A|A]; [destruct (Z_le_gt_dec v 65536) as [B|B]; [destruct (Z_le_gt_dec 0 (v + (target - initial))) as [D|D]|]|].
+  - destruct (Ok ltac:(lia)) as [-> K]. apply emit_one_total. exact K.
+  - rewrite Bad by lia. discriminate.
+  - rewrite Bad by lia. discriminate.
+  - rewrite Bad by lia. discriminate.
+Qed.
+
+(* `.define segment { start = s pc = t }` followed by a byte: never a panic, for all option values *)
+Lemma stmt_segment_total s t : stmt_segment_then_byte s t <> RPanic.
+Proof.
+  unfold stmt_segment_then_byte. destruct (address_check_spec s) as [S1 S2]. destruct (address_check_spec t) as [T1 T2].
+  destruct (Z_le_gt_dec 0 s) as [A|A]; [destruct (Z_le_gt_dec s 65536) as [B|B]|]; try (rewrite S2 by lia; discriminate).
+  rewrite S1 by lia.
+  destruct (Z_le_gt_dec 0 t) as [D|D]; [destruct (Z_le_gt_dec t 65536) as [F|F]|]; try (rewrite T2 by lia; discriminate).
+  rewrite T1 by lia. apply emit_one_total. destruct pc_sites_now as (_ & L & _). unfold pc_ok. rewrite L. lia.
+Qed.
+
+Lemma stmt_pc_examples :
+  stmt_pc_then_byte (mkEnv (fun _ => None) None) 49152 49152 (ENum 10 [49%N] false true) = RDiag diag_pc_out_of_range /\
+  stmt_segment_then_byte 1 i64_max = RDiag diag_pc_out_of_range /\ stmt_segment_then_byte 4096 8192 = REmitted 4097.
+Proof. repeat split; vm_compute; reflexivity. Qed.
 
 (* ------------------------------------------------------------------ loops, recursion, dummy segments *)
 Lemma loop_iterations_guarded count : Known_loop_count_huge count = false -> 0 <= loop_iterations count <= huge_loop_threshold.
@@ -379,34 +441,20 @@ Qed.
 Lemma bank_padding_refuted : bank_padding 1099511627776 1 true = SOk 1099511627775 /\ Known_bank_size_huge 1099511627776 = true.
 Proof. split; vm_compute; reflexivity. Qed.
 
-Lemma branch_base_panics_iff cur target :
-  branch_base cur target = SPanic <-> two64 <= (match cur with Some p => p | None => pc_from_i64 target end) + 2.
-Proof. unfold branch_base. apply pc_add_panics_iff. Qed.
-
-(* in the segment-less first pass exactly the branch targets -1 and -2 panic *)
-Lemma branch_pass0_panics_iff target : in_i64 target = true -> (branch_base None target = SPanic <-> target = -1 \/ target = -2).
+(* the branch arm: `base + 2` wraps, `target_pc - cur_pc` wraps: no panic for any target and any current pc *)
+Lemma branch_offset_total cur target : branch_offset cur target <> SPanic.
 Proof.
-  intros H. rewrite branch_base_panics_iff. unfold pc_from_i64, as_usize, two64. unfold in_i64, i64_min, i64_max in H.
+  destruct pc_sites_now as (_ & _ & _ & A & B). unfold branch_offset, branch_base, pc_add. rewrite A, B.
+  destruct (in_i64 _); discriminate.
+Qed.
+
+(* the unchecked arithmetic (before the fix): in the segment-less first pass exactly the targets -1 and -2 overflowed `+ 2` *)
+Lemma unchecked_branch_base_panics_iff target : in_i64 target = true ->
+  (two64 <= pc_from_i64 target + 2 <-> target = -1 \/ target = -2).
+Proof.
+  intros H. unfold pc_from_i64, as_usize, two64. unfold in_i64, i64_min, i64_max in H.
   destruct (Z_lt_ge_dec target 0) as [N|P].
   - assert (Q : target mod 18446744073709551616 = target + 18446744073709551616) by (symmetry; apply Z.mod_unique with (q := -1); lia).
     rewrite Q. lia.
   - rewrite Z.mod_small by lia. lia.
 Qed.
-
-(* branch targets and current pcs inside 0..2^62 never panic in the branch arm, in any pass *)
-Lemma branch_offset_guarded cur target :
-  0 <= target < 4611686018427387904 -> (match cur with Some p => 0 <= p < 4611686018427387904 | None => True end) ->
-  branch_offset cur target <> SPanic.
-Proof.
-  intros Ht Hc. unfold branch_offset, branch_base, pc_add. change pc_add_checked with false. cbv iota.
-  set (base := match cur with Some p => p | None => pc_from_i64 target end).
-  assert (Hb : 0 <= base < 4611686018427387904).
-  { unfold base. destruct cur as [p|]; [exact Hc|]. unfold pc_from_i64, as_usize, two64. rewrite Z.mod_small by lia. lia. }
-  assert (E : (two64 <=? base + 2) = false) by (unfold two64; lia). rewrite E.
-  assert (W : usize_as_i64 (base + 2) = base + 2) by (unfold usize_as_i64, wrap64, two64; rewrite Z.mod_small by lia; lia).
-  rewrite W.
-  assert (I : in_i64 (target - (base + 2)) = true) by (unfold in_i64, i64_min, i64_max; lia). rewrite I. discriminate.
-Qed.
-
-Lemma branch_offset_refuted : branch_offset None i64_max = SPanic /\ branch_offset (Some 49152) (-9223372036854775807) = SPanic.
-Proof. split; vm_compute; reflexivity. Qed.
